@@ -14,12 +14,14 @@ func init() {
 
 // what the JSON encoding of a field looks like, written from encoding/json's rules
 type vWant struct {
-	name   string // JSON member name; "" = the field does not appear in the encoding
-	typ    string
-	format string
-	ref    string // definition referenced
-	items  *vWant // array element
-	values *vWant // object (map) values
+	name     string // JSON member name; "" = the field does not appear in the encoding
+	typ      string
+	format   string
+	ref      string   // definition referenced
+	items    *vWant   // array element
+	values   *vWant   // object (map) values
+	props    []string // object: exactly these member names
+	anything bool     // any JSON value: no type is stated
 }
 
 type vFieldKind struct {
@@ -63,6 +65,27 @@ var vFieldKinds = []vFieldKind{
 	{decl: "Dq float64 \"json:\\\"dq,omitempty\\\"\"", wants: []vWant{vw("dq", "number", "double")}},
 	// a named string carrying a swagger:strfmt annotation; the instant type of package time
 	{decl: "Ul ULID `json:\"ul\"`", aux: "// ULID is an identifier\n//\n// swagger:strfmt ulid\ntype ULID string\n", wants: []vWant{vw("ul", "string", "ulid")}},
+	// more of what encoding/json does with a struct: a name-less tag keeps the Go name, an embedded
+	// pointer is flattened, an embedded struct NAMED by its tag is one member, interface values are
+	// anything, byte slices are base64 strings, maps may have integer keys, anonymous structs,
+	// pointers to slices and to pointers, an outer field shadows a promoted one, empty structs
+	{decl: "Plain string `json:\",omitempty\"`", wants: []vWant{vw("Plain", "string", "")}},
+	{decl: "*Base2", aux: "type Base2 struct {\n\tB2 int64 `json:\"b2\"`\n}\n", wants: []vWant{vw("b2", "integer", "int64")}},
+	{decl: "Base3 `json:\"base\"`", aux: "type Base3 struct {\n\tB3 int64 `json:\"b3\"`\n}\n", wants: []vWant{{name: "base", typ: "object", props: []string{"b3"}}}},
+	{decl: "Any interface{} `json:\"any\"`", wants: []vWant{{name: "any", anything: true}}},
+	{decl: "Raw []byte `json:\"raw\"`", wants: []vWant{vw("raw", "string", "byte")}},
+	{decl: "Oct []uint8 `json:\"oct\"`", wants: []vWant{vw("oct", "string", "byte")}},
+	{decl: "Free map[string]interface{} `json:\"free\"`", wants: []vWant{{name: "free", typ: "object"}}},
+	{decl: "MI map[int]string `json:\"mi\"`", wants: []vWant{{name: "mi", typ: "object", values: &vWant{typ: "string"}}}},
+	{decl: "Both int32 `json:\"both,omitempty,string\"`", wants: []vWant{vw("both", "string", "int32")}},
+	{decl: "Inl struct {\n\t\tX int8 `json:\"x\"`\n\t} `json:\"inl\"`", wants: []vWant{{name: "inl", typ: "object", props: []string{"x"}}}},
+	{decl: "PS *[]string `json:\"ps\"`", wants: []vWant{{name: "ps", typ: "array", items: &vWant{typ: "string"}}}},
+	{decl: "PP **int16 `json:\"pp\"`", wants: []vWant{vw("pp", "integer", "int16")}},
+	{decl: "shadowed\n\tTok int64 `json:\"tok\"`", aux: "type shadowed struct {\n\tTok string `json:\"tok\"`\n\tKept bool `json:\"kept\"`\n}\n", wants: []vWant{vw("tok", "integer", "int64"), vw("kept", "boolean", "")}},
+	{decl: "Nothing struct{} `json:\"nothing\"`", wants: []vWant{{name: "nothing", typ: "object"}}},
+	{decl: "UP uintptr `json:\"up\"`", wants: []vWant{vw("up", "integer", "uint64")}},
+	// two fields of one struct with the same JSON name: encoding/json leaves out both (open finding C16-S4)
+	{decl: "Dup1 int `json:\"dup\"`\n\tDup2 string `json:\"dup\"`", wants: nil},
 	// a model renamed by an annotation written without a blank after the slashes (the directive form gofmt keeps)
 	{decl: "Own *Owner `json:\"own\"`", aux: "// Owner is a renamed model\n//\n//swagger:model owner\ntype Owner struct {\n\tY bool `json:\"y\"`\n}\n", wants: []vWant{{name: "own", ref: "owner"}}},
 	// two packages called types, each with a type Money: one a formatted string, the other a plain struct
@@ -82,6 +105,9 @@ func vMatches(sw *spec.Swagger, got *spec.Schema, w *vWant) bool {
 	if w.ref != "" {
 		return got.Ref.String() == "#/definitions/"+w.ref
 	}
+	if w.anything {
+		return got.Ref.String() == "" && len(got.Type) == 0
+	}
 	// a named Go type may be described in place or through a definition of its own
 	for depth := 0; depth < 3 && got.Ref.String() != ""; depth++ {
 		d, ok := sw.Definitions[strings.TrimPrefix(got.Ref.String(), "#/definitions/")]
@@ -99,6 +125,16 @@ func vMatches(sw *spec.Swagger, got *spec.Schema, w *vWant) bool {
 	if w.items != nil {
 		if got.Items == nil || got.Items.Schema == nil || !vMatches(sw, got.Items.Schema, w.items) {
 			return false
+		}
+	}
+	if w.props != nil {
+		if len(got.Properties) != len(w.props) {
+			return false
+		}
+		for _, n := range w.props {
+			if _, has := got.Properties[n]; !has {
+				return false
+			}
 		}
 	}
 	if w.values != nil {
@@ -202,6 +238,9 @@ func VerifC16TypeWalk() {
 		if has {
 			vAssert(vMatches(sw, &p, &w), "a member is described with a type its JSON encoding does not have: "+w.name)
 		}
+	}
+	if _, dup := def.Properties["dup"]; vKnown("C16-S4", dup) {
+		return
 	}
 	vAssert(len(def.Properties) == len(wants), "the definition declares members the JSON encoding does not have")
 	vAssert(vRefsResolve(sw), "the document refers to a definition it does not contain")
